@@ -165,6 +165,16 @@ func sliceEditOps(s []int, full bool) []string {
 	add("ConvertSliceToBoolMap %s", S)
 	add("ReverseSlice %s", S)
 	add("ReverseSlice.backing %s", S)
+	for _, ij := range [][2]int{{0, len(s) - 1}, {0, 0}, {1, 2}, {-1, 0}, {0, len(s)}, {len(s) - 1, 1}, {2, -3}} {
+		add("SwapSlice %s %d %d", S, ij[0], ij[1])
+		add("SwapSlice.backing %s %d %d", S, ij[0], ij[1])
+	}
+	for _, h := range sumIdxNames {
+		add("SliceSum %s %s", S, h)
+	}
+	for _, g := range getterNames {
+		add("MappingFromSlice %s %s", S, g)
+	}
 	preds := predNames
 	if !full {
 		preds = []string{"even", "neg"}
@@ -189,6 +199,12 @@ func mapEditOps(m map[int]int, full bool) []string {
 	add("ConvertMapValuesToBool %s", M)
 	add("InvertMap %s", M)
 	add("ClearMap %s", M)
+	for _, h := range sumKVNames {
+		add("MapSum %s %s", M, h)
+	}
+	for _, g := range getterNames {
+		add("MappingFromMap %s %s", M, g)
+	}
 	ks := []int{-1, 0, 1, 2, 3}
 	for _, k := range ks {
 		add("FilterOutByKey %s %d", M, k)
